@@ -233,7 +233,13 @@ def scope_case(rng):
     h = lambda: p.func([], p.block([p.callstat(p.call(p.id("probe"), [p.num(2)])), p.ret([p.num(0)])]))
     mmdecl = p.local(["mm"], [p.call(p.id("setmetatable"), [p.table([]), p.table([("k", p.add("str", s=list(b"__add"), name=True), h()), ("k", p.add("str", s=list(b"__unm"), name=True), h()),
                                                                                  ("k", p.add("str", s=list(b"__index"), name=True), h()), ("k", p.add("str", s=list(b"__concat"), name=True), h())])])])
-    body = [mmdecl] + gen_block(2, ["mm"])
+    # variables are numbered from 1: index 0 and negative indexes name nothing, reading them gives nil and setting them
+    # changes nothing (the slots under a frame hold its function and its caller's values)
+    nonpos = lambda tag: [p.emit([p.str(tag), p.call(_dbg(p, "getlocal"), [p.num(1), p.num(0)]), p.call(_dbg(p, "getlocal"), [p.num(1), p.num(-1)]),
+                                  p.call(_dbg(p, "setlocal"), [p.num(1), p.num(0), p.str("bad")]), p.call(_dbg(p, "setlocal"), [p.num(1), p.num(-rng.randint(1, 3)), p.str("bad")]),
+                                  p.call(_dbg(p, "getupvalue"), [p.id("probe"), p.num(0)]), p.call(_dbg(p, "setupvalue"), [p.id("probe"), p.num(-1), p.str("bad")])]),
+                          p.emit([p.str(tag + "-intact"), p.id("pa"), p.id("pb"), p.call(p.id("type"), [p.id("probe")])])]
+    body = [mmdecl] + nonpos("nonpos-entry") + gen_block(2, ["mm"]) + nonpos("nonpos-exit")
     main_fn = p.func(["pa", "pb"], p.block(body), va=rng.random() < 0.3, ud=False)
     ss.append(p.localfunction("main", main_fn))
     ss.append(p.callstat(p.call(p.id("main"), [p.num(11), p.num(22), p.num(33)])))
